@@ -6,6 +6,7 @@ import (
 	"fmt"
 	"io"
 	"os"
+	"os/exec"
 	"path/filepath"
 	"strings"
 	"testing"
@@ -27,11 +28,24 @@ type faultReader struct {
 	chunk int // maximum bytes per Read (0 = as much as asked)
 	// together: the bytes just before the fault are delivered together with the error
 	together bool
+	// err: the error the stream fails with (errInjected when nil)
+	err error
 }
+
+func (r *faultReader) fault() error {
+	if r.err != nil {
+		return r.err
+	}
+	return errInjected
+}
+
+// faultErrors: what a failing stream may report. Anything but io.EOF is a fault, also the errors that the io package
+// itself uses for other purposes.
+var faultErrors = []error{errInjected, io.ErrUnexpectedEOF, io.ErrClosedPipe, io.ErrNoProgress}
 
 func (r *faultReader) Read(p []byte) (int, error) {
 	if r.pos >= r.k {
-		return 0, errInjected
+		return 0, r.fault()
 	}
 	n := len(p)
 	if r.chunk > 0 && n > r.chunk {
@@ -44,7 +58,7 @@ func (r *faultReader) Read(p []byte) (int, error) {
 	r.pos += n
 	if r.together && r.pos >= r.k && n > 0 {
 		// the last bytes before the fault arrive together with the error (and the error is repeated afterwards)
-		return n, errInjected
+		return n, r.fault()
 	}
 	return n, nil
 }
@@ -106,6 +120,8 @@ type c18Case struct {
 	Mode int `json:"mode,omitempty"`
 	// Indent (writer "ttml"): "" = no option; "none", "tab", "two" = WriteToTTMLWithIndentOption("", "\t", "  ")
 	Indent string `json:"indent,omitempty"`
+	// Err (read faults): index into faultErrors of the error the stream fails with
+	Err int `json:"err,omitempty"`
 }
 
 // c18Write writes with the options of the case.
@@ -190,7 +206,7 @@ func checkC18(c c18Case) string {
 		})
 		return msg
 	}
-	fr := &faultReader{data: c.Doc, k: c.FaultAt, chunk: c.Chunk, together: c.Mode == 1}
+	fr := &faultReader{data: c.Doc, k: c.FaultAt, chunk: c.Chunk, together: c.Mode == 1, err: faultErrors[c.Err%len(faultErrors)]}
 	var r io.Reader = fr
 	if c.Format == "ts" {
 		r = faultReadSeeker{fr}
@@ -201,7 +217,7 @@ func checkC18(c c18Case) string {
 		if s != nil {
 			n = len(s.Items)
 		}
-		return fmt.Sprintf("%s reader returned nil error (%d cues) although the stream failed with a non-EOF error at byte %d of %d", c.Format, n, c.FaultAt, len(c.Doc))
+		return fmt.Sprintf("%s reader returned nil error (%d cues) although the stream failed with a non-EOF error (%v) at byte %d of %d", c.Format, n, fr.fault(), c.FaultAt, len(c.Doc))
 	}
 	return ""
 }
@@ -275,7 +291,7 @@ func TestC18(t *testing.T) {
 							if chunk == 1 && k%5 != 0 {
 								continue
 							}
-							c := c18Case{Format: format, Doc: doc, FaultAt: k, Chunk: chunk, Mode: k % 2}
+							c := c18Case{Format: format, Doc: doc, FaultAt: k, Chunk: chunk, Mode: k % 2, Err: (k / 2) % len(faultErrors)}
 							ev.CaseH(true, mix(strHash(string(doc)), uint64(k), uint64(chunk)), "read-fault", "format-"+format, fmt.Sprintf("read-fault-mode-%d", c.Mode))
 							total++
 							verdict(t, "C18", "c18", c, checkC18)
@@ -442,6 +458,60 @@ func TestC18(t *testing.T) {
 		}
 	})
 
+	// The command-line tool: an input that cannot be read (missing, over-long line) and an output that cannot be
+	// created make it exit with a non-zero status, whichever sub-command and whichever input position.
+	sub(t, "cli", func(t *testing.T) {
+		cli := os.Getenv("VERIF_CLI")
+		if cfgShard != 0 || cli == "" {
+			return
+		}
+		dir := t.TempDir()
+		good := filepath.Join(dir, "good.srt")
+		long := filepath.Join(dir, "long.srt")
+		missing := filepath.Join(dir, "missing.srt")
+		_ = os.WriteFile(good, []byte("1\n00:00:01,000 --> 00:00:02,000\na\n\n2\n00:00:03,000 --> 00:00:04,000\nb\n"), 0o644)
+		_ = os.WriteFile(long, []byte("1\n00:00:01,000 --> 00:00:02,000\na\n\n2\n00:00:03,000 --> 00:00:04,000\n"+strings.Repeat("x", 1<<17)+"\n\n3\n00:00:05,000 --> 00:00:06,000\nc\n"), 0o644)
+		out := filepath.Join(dir, "out.srt")
+		nodir := filepath.Join(dir, "no-such-dir", "out.srt")
+		type run struct {
+			name string
+			args []string
+		}
+		var runs []run
+		for _, bad := range []string{missing, long} {
+			b := filepath.Base(bad)
+			runs = append(runs,
+				run{"convert " + b, []string{"convert", "-i", bad, "-o", out}},
+				run{"sync " + b, []string{"sync", "-i", bad, "-s", "1s", "-o", out}},
+				run{"fragment " + b, []string{"fragment", "-i", bad, "-f", "1s", "-o", out}},
+				run{"unfragment " + b, []string{"unfragment", "-i", bad, "-o", out}},
+				run{"optimize " + b, []string{"optimize", "-i", bad, "-o", out}},
+				run{"apply-linear-correction " + b, []string{"apply-linear-correction", "-i", bad, "-a1", "1s", "-d1", "1s", "-a2", "2s", "-d2", "3s", "-o", out}},
+				run{"merge first " + b, []string{"merge", "-i", bad, "-i", good, "-o", out}},
+				run{"merge second " + b, []string{"merge", "-i", good, "-i", bad, "-o", out}},
+			)
+		}
+		for _, sc := range [][]string{{"convert"}, {"sync", "-s", "1s"}, {"fragment", "-f", "1s"}, {"unfragment"}, {"optimize"}, {"merge", "-i", good}} {
+			args := append(append([]string{sc[0], "-i", good}, sc[1:]...), "-o", nodir)
+			runs = append(runs, run{sc[0] + " into a missing directory", args})
+		}
+		for _, r := range runs {
+			ev.CaseH(true, strHash("cli"+r.name), "cli-error-path")
+			_ = os.Remove(out)
+			o, err := exec.Command(cli, r.args...).CombinedOutput()
+			if err == nil {
+				writeReplay("C18", "c18", c18Case{Format: "cli"}, "astisub "+r.name+": exit status 0")
+				t.Fatalf("astisub %s: exit status 0 although an input cannot be read / the output cannot be created\n%s", r.name, clip(string(o), 400))
+			}
+		}
+		// and the sane run succeeds (the runs above fail for the reason intended)
+		good2 := filepath.Join(dir, "good2.srt")
+		_ = os.WriteFile(good2, []byte("1\n00:00:07,000 --> 00:00:08,000\nz\n"), 0o644)
+		if o, err := exec.Command(cli, "merge", "-i", good, "-i", good2, "-o", out).CombinedOutput(); err != nil {
+			t.Fatalf("astisub merge of two readable files failed: %v\n%s", err, clip(string(o), 400))
+		}
+	})
+
 	rapidCheck(t, "C18/random", tier(800, 100000), func(rt *rapid.T) {
 		format := rapid.SampledFrom(allFormats).Draw(rt, "format")
 		doc := docGen(format).Draw(rt, "doc")
@@ -458,7 +528,7 @@ func TestC18(t *testing.T) {
 			verdict(rt, "C18", "c18", c, checkC18)
 			return
 		}
-		c := c18Case{Format: format, Doc: doc, FaultAt: rapid.IntRange(0, faultLimit(format, doc)).Draw(rt, "k"), Chunk: rapid.SampledFrom([]int{0, 1, 7, 188, 4096}).Draw(rt, "chunk"), Mode: rapid.IntRange(0, 1).Draw(rt, "rmode")}
+		c := c18Case{Format: format, Doc: doc, FaultAt: rapid.IntRange(0, faultLimit(format, doc)).Draw(rt, "k"), Chunk: rapid.SampledFrom([]int{0, 1, 7, 188, 4096}).Draw(rt, "chunk"), Mode: rapid.IntRange(0, 1).Draw(rt, "rmode"), Err: rapid.IntRange(0, len(faultErrors)-1).Draw(rt, "errkind")}
 		ev.Case(true, fmt.Sprintf("%v", c), "random", "read-fault", "format-"+format)
 		verdict(rt, "C18", "c18", c, checkC18)
 	})
